@@ -178,6 +178,32 @@ def solver_cases(report):
         ("propagator_t0", lambda st: [qutip.propagator(H0, 0.0), qutip.propagator(Hz, [0, 1.0])[0]],
          None),
     ]
+
+    # steady-state functions hand back a symmetrised matrix with isherm=True
+    # (sites prop_ss, ss_direct, ss_power of the translator)
+    def ss_outputs(st):
+        sx, sm, sz = qutip.sigmax(), qutip.sigmam(), qutip.sigmaz()
+        systems = [(sz + 0.3 * sx, [0.7 * sm]),
+                   (sz, [0.5 * sm, 0.2 * sm.dag()]),
+                   (qutip.jmat(1, "z") + 0.4 * qutip.jmat(1, "x"), [0.6 * qutip.jmat(1, "-")]),
+                   (qutip.tensor(sz, qutip.qeye(2)) + 0.2 * qutip.tensor(sx, sx),
+                    [0.5 * qutip.tensor(sm, qutip.qeye(2)), 0.4 * qutip.tensor(qutip.qeye(2), sm)])]
+        outs = []
+        for H, c in systems:
+            for kw in ({"method": "direct"}, {"method": "direct", "sparse": False},
+                       {"method": "power"}, {"method": "eigen"}, {"method": "svd"},
+                       {"method": "iterative-gmres"}, {"method": "direct", "use_rcm": True}):
+                try:
+                    outs.append(qutip.steadystate(H, c, **kw))
+                except Exception:
+                    pass
+            try:
+                U = qutip.propagator(H, 40.0, c)
+                outs.append(qutip.propagator_steadystate(U))
+            except Exception:
+                pass
+        return outs
+    cases.append(("steadystate", ss_outputs, None))
     n = 0
     for name, fn, st in cases:
         for cache in CACHE_STATES:
